@@ -303,7 +303,7 @@ func c06Gen(r *simrt.Rand) *c06prog {
 				}
 				rule.Matches = append(rule.Matches, m)
 			}
-			k := r.Weighted(6, 1, 3, 2, 1, 2, 2, 2, 2, 1, 1, 1, 2, 2, 2)
+			k := r.Weighted(6, 1, 3, 2, 1, 2, 2, 2, 2, 1, 1, 1, 2, 2, 2, 2)
 			switch k {
 			case 0:
 				rule.Exec = "$" + newPlugin("aok", 0)
@@ -341,8 +341,9 @@ func c06Gen(r *simrt.Rand) *c06prog {
 				rule.Exec = []string{"reject", "reject 3", "reject 2"}[r.Choose(3)]
 			case 11:
 				rule.Exec = "return"
-			case 12, 13:
-				// jump / goto to an earlier sequence (targets must exist when a sequence is built)
+			case 12, 13, 15:
+				// jump / goto to an earlier sequence (targets must exist when a sequence is built);
+				// 15: the earlier sequence is invoked by its tag as a plain action
 				var cands []int
 				for j := 0; j < si; j++ {
 					if depth[j] < 4 {
@@ -357,7 +358,9 @@ func c06Gen(r *simrt.Rand) *c06prog {
 				if depth[j]+1 > depth[si] {
 					depth[si] = depth[j] + 1
 				}
-				if k == 12 {
+				if k == 15 {
+					rule.Exec = fmt.Sprintf("$s%d", j)
+				} else if k == 12 {
 					rule.Exec = fmt.Sprintf("jump s%d", j)
 				} else {
 					rule.Exec = fmt.Sprintf("goto s%d", j)
@@ -497,6 +500,21 @@ func (ri *c06ref) exec(c *c06cont, q *c06q) error {
 			var j int
 			fmt.Sscanf(f[1], "s%d", &j)
 			c = &c06cont{seq: j, pos: 0, back: nil}
+			continue
+		}
+		if pl0 := ri.p.Plugins[f[0][1:]]; pl0 == nil {
+			// "$sJ": a sequence used as a plain action. It runs on its own (its
+			// accept / reject / return / end and the continuations of its wrapping
+			// plugins stay inside it), an error aborts everything, and the
+			// caller goes on with its next rule.
+			var j int
+			if _, err := fmt.Sscanf(f[0], "$s%d", &j); err != nil {
+				panic("bad exec " + rule.Exec)
+			}
+			if err := ri.exec(&c06cont{seq: j, pos: 0, back: nil}, q); err != nil {
+				return err
+			}
+			c = rest
 			continue
 		}
 		pl := ri.p.Plugins[f[0][1:]]
